@@ -102,6 +102,13 @@ CLAIMED["C09"] = {
   "technique": "machine-checked proof in Lean 4 (totality of the model, guard lemmas for the partial operations) + model/implementation correspondence on adversarial input + supervised safety oracles",
 }
 
+CLAIMED["C13"] = {
+  "text": "Lean 4 theorems (Geodesy/Props/C13.lean) over the models of merc, webmerc, tmerc/utm, btmerc/butm, lcc, laea, omerc, somerc (ported operator by operator from src/inner_op/*.rs; the compiled model is bit-identical with the implementation on the correspondence run), read over the reals, for ALL parameter values and ALL points: x_0 and y_0 are added to the forward result and subtracted first by the inverse (merc_false_origin, merc_false_origin_inv, lcc_false_origin, tmerc_false_origin + tmerc_offsets through the stored northing offset, btmerc_false_origin, omerc_false_origin for all three variants, somerc_false_origin, laea_false_origin for every aspect); lon_0 in degrees equals subtracting it from the input longitude (merc_lon0, lcc_lon0, tmerc_lon0); k_0 and the semi-major axis scale the unshifted result linearly (merc_k0, lcc_scale, tmerc_scale); lat_ts is exactly the corresponding k_0 (merc_lat_ts_is_k0); utm zone=Z [south] IS tmerc with lon_0=6Z-183, k_0=0.9996, x_0=500000, y_0=0|10000000 — every tmerc parameter set with these five values on the same ellipsoid yields the same per-tuple function (utm_is_tmerc via tmerc_pre_congr), butm likewise is btmerc (butm_is_btmerc via btmerc_congr); the noop aliases return the data untouched and count every tuple (noop_identity, noop_aliases). Tied to /repo by the correspondence run (model vs implementation, <= 4 ulp, on random valid parameterisations of all ten projections in both directions, incl. lat_ts and equal-parallel lcc) and by oracles on the implementation comparing pairs of differently parameterised instances: false origin, lon_0, k_0, ellipsoid size, utm/butm for all 60 zones and both hemispheres (bit-identical), merc-on-sphere = webmerc, lat_ts = k_0 and lat_ts symmetry, 1SP lcc = 2SP lcc with equal parallels (bit-identical), noop aliases (bit-identical), each forward and inverse.",
+  "design_ref": "DESIGN.md section 7, C13",
+  "note": "Partial: 'merc on a sphere equals webmerc' and '1SP lcc = 2SP lcc with equal parallels' are decided by the oracles and the correspondence, not by theorems (the first needs asinh(tan x) = ln tan(pi/4 + x/2) over the reals, the second the NaN default of lat_2 which the real-number reading cannot express); scaling by the semi-major axis is proved for lcc and tmerc and checked by the oracle for the others; floating point rounding is outside the real-number reading.",
+  "technique": "machine-checked proof in Lean 4 (algebraic laws of the projection formulas over the reals, congruence of constructor-derived parameters) + model/implementation correspondence + paired-instance oracles",
+}
+
 ALL = ["C%02d" % i for i in range(1, 21)]
 
 def main():
